@@ -3,6 +3,7 @@
 pub mod clock;
 pub mod evidence;
 pub mod inner;
+pub mod seq;
 pub mod svcx;
 pub mod world;
 
